@@ -484,7 +484,7 @@ Proof.
   destruct (sequence (map2 np_bdim (pad_app (length B) A) B)) as [r|] eqn:Q.
   - pose proof (seq_map2_dom _ _ _ LP Q) as (_ & _ & Lr).
     unfold np_out_ok. simpl length. rewrite Lr. replace (S (length B) - length B) with 1 by lia. simpl repeat. simpl app.
-    destruct (Nat.leb_spec (length B) (S (length B))); [|lia]. simpl andb.
+    destruct (Nat.leb_spec (length B) (S (length B))) as [_|HH]; [|lia]. simpl andb.
     rewrite shape_eqb_eq. split.
     + intros H. inversion H; subst. split; auto.
       apply (dom_pad_app (length B)); auto; try lia. apply seq_map2_to; auto.
@@ -498,13 +498,13 @@ Lemma all_ones_map2 A x y : all_ones A = true -> length A <= length x -> length 
   map2 sel A x = map2 sel A y.
 Proof.
   revert x y. induction A as [|a A IH]; intros [|i x] [|j y] H Lx Ly; simpl in *; auto; try lia.
-  apply andb_true_iff in H as [H1 H2]. apply Nat.eqb_eq in H1. subst a. f_equal. apply IH; auto; lia.
+  apply andb_true_iff in H as [H1 H2]. destruct a as [|[|a]]; try discriminate. f_equal. apply IH; auto; lia.
 Qed.
 
 Lemma all_ones_dom A B : all_ones A = true -> length A <= length B -> dom A B.
 Proof.
   revert B. induction A as [|a A IH]; intros [|b B] H L; simpl in *; auto; try lia.
-  apply andb_true_iff in H as [H1 H2]. apply Nat.eqb_eq in H1. split; auto. apply IH; auto. lia.
+  apply andb_true_iff in H as [H1 H2]. destruct a as [|[|a]]; try discriminate. split; auto. apply IH; auto. lia.
 Qed.
 
 (* When accepted, the in-place result is the append-aligned one for every index of the state
@@ -516,31 +516,33 @@ Theorem mp_inplace_correct_iff a A B :
    <-> all_ones (a :: A) = true).
 Proof.
   intros L P OK. apply mp_inplace_spec in OK as [-> D]; auto. split.
-  - intros H. simpl. clear L.
+  - intros H. simpl.
     (* find the first non-singleton axis and an index that separates the two projections *)
-    assert (G : forall A B, dom A B -> pos B ->
-      (forall bidx, valid B bidx -> map2 sel A (0 :: bidx) = map2 sel A bidx ++ []) -> False \/ all_ones A = true).
-    { clear. intros A B D P H. right. revert B D P H.
-      induction A as [|x A IH]; intros [|b B] D P H; simpl in *; auto; try tauto.
+    assert (G : forall A B, dom A B -> pos B -> length A < length B ->
+      (forall bidx, valid B bidx -> map2 sel A bidx = map2 sel A (tl bidx)) -> all_ones A = true).
+    { clear. intros A B D P L H. revert B D P L H.
+      induction A as [|x A IH]; intros [|b B] D P L H; simpl in *; auto; try tauto; try lia.
       destruct D as [D1 D2]. inversion P; subst.
+      assert (Z : forall B, pos B -> valid B (repeat 0 (length B))).
+      { clear. induction B; intros P; [constructor|]. inversion P; subst.
+        unfold valid. simpl. constructor; [lia|]. now apply IHB. }
       destruct (Nat.eqb_spec 1 x) as [<-|N]; simpl.
-      - apply (IH B); auto. intros bidx V.
-        specialize (H (0 :: bidx)). simpl in H. rewrite app_nil_r in *.
+      - apply (IH B); auto; try lia. intros bidx V.
         assert (V' : valid (b :: B) (0 :: bidx)) by (constructor; auto; lia).
-        specialize (H V'). inversion H. rewrite H1. reflexivity.
+        specialize (H _ V'). simpl in H. destruct bidx as [|i t]; simpl in *.
+        + inversion V. subst. simpl in L. lia.
+        + inversion H. reflexivity.
       - exfalso. destruct D1 as [|D1]; [congruence|]. subst x.
-        (* index 1 on this axis, 0 elsewhere *)
-        assert (Z : exists z, valid B z).
-        { clear -H3. induction B; [exists []; constructor|]. inversion H3; subst.
-          destruct (IHB H2) as [z Hz]. exists (0 :: z). constructor; auto; lia. }
-        destruct Z as [z Hz]. specialize (H (1 :: z)).
-        assert (V' : valid (b :: B) (1 :: z)) by (constructor; auto; lia).
-        specialize (H V'). simpl in H. inversion H. unfold sel in H1.
-        destruct (Nat.eqb_spec b 1); [congruence|discriminate]. }
-    destruct (G A B D P) as [[]|G']; auto.
+        pose proof (Z B H3) as Hz.
+        assert (V' : valid (b :: B) (1 :: repeat 0 (length B))) by (constructor; auto; lia).
+        specialize (H _ V'). destruct B as [|b' B]; [simpl in L; lia|]. simpl in H.
+        inversion H. unfold sel in H1.
+        destruct (Nat.eqb_spec b 1); [congruence|]. discriminate. }
+    apply (G A B D P); [simpl in L; lia|].
     intros bidx V. specialize (H bidx V). pose proof (valid_length _ _ V).
     rewrite mp_inplace_op_spec in H by (simpl in *; lia).
-    rewrite !aproj_long in H by (simpl in *; lia). simpl in H. inversion H. rewrite app_nil_r. reflexivity.
+    rewrite !aproj_long in H by (simpl in *; lia).
+    destruct bidx as [|i t]; [simpl in *; lia|]. simpl in H. inversion H. simpl tl. assumption.
   - intros H bidx V. pose proof (valid_length _ _ V).
     rewrite mp_inplace_op_spec by (simpl in *; lia).
     rewrite !aproj_long by (simpl in *; lia). apply all_ones_map2; auto; simpl in *; lia.
@@ -558,3 +560,229 @@ Lemma prod_low_rank_refuted :
   exists A B ns idx, broadcastable true [B; A] = true /\ length B < length A /\
     prod_shape A B ns <> None /\ removelast (prod_st B ns (idx ++ [0])) <> aproj B idx.
 Proof. exists [2; 2], [2], 1, [0; 1]. vm_compute. repeat split; auto; discriminate. Qed.
+
+(* ------------------------------------------------------------------ prepare *)
+Lemma prepare_some A B B' : prepare A B = Some B' ->
+  length A <= length B' /\ exists X, B' = B ++ X.
+Proof.
+  unfold prepare. destruct (broadcastable true [B; A]); [|discriminate].
+  intros H. inversion H; subst. destruct (Nat.ltb_spec (length B) (length A)).
+  - split; [rewrite pad_app_length; lia|]. unfold pad_app. eauto.
+  - split; auto. exists []. now rewrite app_nil_r.
+Qed.
+
+(* incompatible shapes: prepare raises, and so does the operator application *)
+Theorem incompatible_raises (S : ScalOps) q ns (o : vop S) (s : vsm S) :
+  broadcastable true [bshape s; vshape o] = false ->
+  prepare (vshape o) (bshape s) = None /\ vapply q ns o s = None.
+Proof. intros H. unfold vapply, prepare. rewrite H. auto. Qed.
+
+(* ... which is exactly: some axis (left-aligned) carries two different sizes other than 1 *)
+Lemma forallb_false_ex {A} (f : A -> bool) l : forallb f l = false -> exists x, In x l /\ f x = false.
+Proof.
+  induction l; simpl; [discriminate|]. destruct (f a) eqn:E; simpl.
+  - intros H. destruct (IHl H) as (x & ? & ?). exists x; auto.
+  - intros _. exists a; auto.
+Qed.
+
+Theorem incompatible_iff A B :
+  broadcastable true [B; A] = false <->
+  exists i, nth i A 1 <> 1 /\ nth i B 1 <> 1 /\ nth i A 1 <> nth i B 1.
+Proof.
+  unfold broadcastable. cbv zeta. split.
+  - intros H. apply forallb_false_ex in H as (i & Hi & H). exists i.
+    unfold col, expand_shapes in H. simpl map in H. rewrite !nth_pad_app in H.
+    unfold non1 in H. simpl filter in H.
+    destruct (Nat.eqb_spec (nth i B 1) 1), (Nat.eqb_spec (nth i A 1) 1); simpl in H; try discriminate.
+    rewrite andb_true_r in H. apply Nat.eqb_neq in H. repeat split; auto.
+  - intros (i & Na & Nb & D).
+    destruct (forallb _ _) eqn:H; auto. exfalso. rewrite forallb_forall in H.
+    assert (Hi : i < maxlen [B; A]).
+    { simpl. destruct (Nat.lt_ge_cases i (length A)); [lia|]. rewrite (nth_overflow A) in Na by lia. congruence. }
+    assert (Hs : In i (seq 0 (maxlen [B; A]))) by (apply in_seq; lia).
+    apply H in Hs. rewrite col_ok_spec in Hs. apply D.
+    apply Hs; auto; unfold col, expand_shapes; simpl; rewrite !nth_pad_app; auto.
+Qed.
+
+(* ------------------------------------------------------------------ alignment of one product *)
+Definition aligned (A B' : shape) (p : prodinfo) : Prop :=
+  length (pi_shape p) = length B' /\ dom A (pi_shape p) /\ dom B' (pi_shape p) /\
+  forall j, length j = length B' -> pi_op p j = aproj A j /\ pi_st p j = aproj B' j.
+
+Lemma removelast_snoc {A} (l : list A) a : removelast (l ++ [a]) = l.
+Proof. induction l; simpl; auto. destruct (l ++ [a]) eqn:E; [destruct l; discriminate|]. now rewrite IHl. Qed.
+
+(* scalar_prod and the fall-back matmul, any ranks |A| <= |B'|: append-aligned *)
+Lemma vprod_fallback_aligned m A B' ns p : length A <= length B' ->
+  vprod false m A B' ns = Some p -> aligned A B' p.
+Proof.
+  intros L. unfold vprod. simpl. rewrite prod_shape_le by auto.
+  destruct (ashape A B') as [R|] eqn:E; [|discriminate]. intros H. inversion H; subst. clear H.
+  destruct (ashape_dom _ _ _ L E) as (D1 & D2 & D3). unfold aligned. simpl.
+  rewrite removelast_snoc. repeat split; auto.
+  - now apply prod_op_aligned.
+  - rewrite prod_st_aligned by auto. now rewrite removelast_snoc.
+Qed.
+
+Definition op_safe {S} (q : bool) (o : vop S) : Prop :=
+  q = false \/ vmat o = false \/ all_ones (vshape o) = true \/ hd 1 (vshape o) <> 1.
+
+Lemma vprod_aligned q m A B' ns p : length A <= length B' ->
+  (q = false \/ m = false \/ all_ones A = true \/ hd 1 A <> 1) ->
+  vprod q m A B' ns = Some p -> aligned A B' p.
+Proof.
+  intros L Sf. unfold vprod. destruct (q && m && mp_inplace_ok A B') eqn:E.
+  - apply andb_true_iff in E as [E E3]. apply andb_true_iff in E as [E1 E2]. subst.
+    destruct Sf as [|[|[Sf|Sf]]]; try discriminate.
+    + intros H. inversion H; subst. clear H. unfold aligned. simpl.
+      repeat split; auto using dom_refl, all_ones_dom.
+      * destruct A as [|a A]; [reflexivity|]. rewrite mp_inplace_op_spec by auto.
+        rewrite !aproj_long by (simpl in *; lia). apply all_ones_map2; auto; simpl in *; lia.
+      * rewrite np_proj_full by auto. now rewrite aproj_long by lia.
+    + destruct A as [|a A]; [simpl in Sf; congruence|].
+      apply mp_inplace_spec in E3 as [-> _]; auto. simpl in Sf. congruence.
+  - intros H. apply (vprod_fallback_aligned m A B' ns p L). unfold vprod. simpl. exact H.
+Qed.
+
+(* ------------------------------------------------------------------ the vectorised run *)
+Section Stack.
+Variable S : ScalOps.
+
+Lemma vapply_spec q ns (o : vop S) (s s1 : vsm S) : op_safe q o -> vapply q ns o s = Some s1 ->
+  length (bshape s) <= length (bshape s1) /\ dom (vshape o) (bshape s1) /\ dom (bshape s) (bshape s1) /\
+  forall idx, length (bshape s1) <= length idx ->
+    sget s1 (aproj (bshape s1) idx) =
+    apply (vget o (aproj (vshape o) idx)) (sget s (aproj (bshape s) idx)).
+Proof.
+  intros Sf. unfold vapply. destruct (prepare (vshape o) (bshape s)) as [B'|] eqn:P; [|discriminate].
+  destruct (prepare_some _ _ _ P) as (L & X & EX).
+  destruct (vprod q (vmat o) (vshape o) B' ns) as [p|] eqn:V; [|discriminate].
+  intros H. inversion H; subst s1. clear H. simpl.
+  destruct (vprod_aligned _ _ _ _ _ _ L Sf V) as (A1 & A2 & A3 & A4).
+  assert (LB : length (bshape s) <= length B') by (rewrite EX, app_length; lia).
+  split; [lia|]. split; auto. split; [rewrite EX in A3; now apply dom_app_l in A3|].
+  intros idx Li. set (j := aproj (pi_shape p) idx).
+  assert (Lj : length j = length B') by (unfold j; rewrite aproj_length; lia).
+  destruct (A4 j Lj) as [-> ->]. unfold j.
+  rewrite aproj_dom by (auto; lia). f_equal.
+  rewrite aproj_dom by (auto; lia). rewrite EX. f_equal. apply firstn_aproj_app. rewrite <- EX. lia.
+Qed.
+
+(* C07, states: every entry of the vectorised run is the scalar run (Model/Ops.run) with that
+   grid index's coefficients, started from that index's initial state.
+   q = false: the code without the in-place matmul branch -> unconditional.
+   q = true : the pinned tree -> for sequences whose batched MatrixOps cannot take the in-place
+   branch (first axis not a singleton) or are unbatched. *)
+Theorem vectorised_is_stack q ns (ops : list (vop S)) (s r : vsm S) :
+  List.Forall (op_safe q) ops -> vrun q ns ops s = Some r ->
+  length (bshape s) <= length (bshape r) /\
+  forall idx, valid (bshape r) idx ->
+    sget r idx = run (scalar_ops ops idx) (sget s (aproj (bshape s) idx)).
+Proof.
+  revert s. induction ops as [|o ops IH]; intros s Sf H; simpl in *.
+  - inversion H; subst. split; auto. intros idx V. now rewrite aproj_valid.
+  - inversion Sf; subst. destruct (vapply q ns o s) as [s1|] eqn:E; [|discriminate].
+    destruct (IH s1 H3 H) as [L1 IH']. destruct (vapply_spec _ _ _ _ _ H2 E) as (L0 & _ & _ & Hs).
+    split; [lia|]. intros idx V. rewrite (IH' idx V).
+    rewrite Hs by (apply valid_length in V; lia). reflexivity.
+Qed.
+
+(* shape of the result when every operator shape is dominated by the initial shape
+   (simulate: initial shape = getshape(seq) (++ extra axes of a given initial state)) *)
+Lemma ashape_dom_id A B : dom A B -> ashape A B = Some B.
+Proof.
+  intros D. unfold ashape. apply seq_map2_to; [apply pad_app_length; now apply dom_length|].
+  apply dom_pad_app; auto. now apply dom_length.
+Qed.
+
+Lemma dom_broadcastable A B : dom A B -> broadcastable true [B; A] = true.
+Proof.
+  intros D. destruct (broadcastable true [B; A]) eqn:E; auto. apply incompatible_iff in E as (i & Na & Nb & N).
+  exfalso. revert B i D Na Nb N. induction A as [|a A IH]; intros [|b B] i D Na Nb N; simpl in *; try tauto.
+  - destruct i; congruence.
+  - destruct i; [destruct D as [[|] _]; congruence|]. destruct D. eapply IH; eauto.
+Qed.
+
+Lemma vapply_dom q ns (o : vop S) (s : vsm S) : dom (vshape o) (bshape s) ->
+  exists s1, vapply q ns o s = Some s1 /\ bshape s1 = bshape s.
+Proof.
+  intros D. pose proof (dom_length _ _ D) as L. unfold vapply, prepare.
+  rewrite (dom_broadcastable _ _ D). destruct (Nat.ltb_spec (length (bshape s)) (length (vshape o))); [lia|].
+  unfold vprod. destruct (q && vmat o && mp_inplace_ok (vshape o) (bshape s)).
+  - eexists. split; reflexivity.
+  - rewrite prod_shape_le by auto. rewrite ashape_dom_id by auto. eexists. split; [reflexivity|].
+    simpl. apply removelast_snoc.
+Qed.
+
+Theorem output_shape q ns (ops : list (vop S)) (s : vsm S) nacq :
+  List.Forall (fun o => dom (vshape o) (bshape s)) ops ->
+  exists r, vrun q ns ops s = Some r /\ bshape r = bshape s /\
+            simulate_shape nacq (bshape r) = nacq :: bshape s.
+Proof.
+  revert s. induction ops as [|o ops IH]; intros s F; simpl.
+  - eexists; repeat split; reflexivity.
+  - inversion F; subst. destruct (vapply_dom q ns o s H1) as (s1 & E & Es). rewrite E.
+    rewrite <- Es in H2. destruct (IH s1 H2) as (r & R1 & R2 & R3). exists r. rewrite R1. unfold simulate_shape in *.
+    repeat split; congruence.
+Qed.
+End Stack.
+
+(* getshape(seq) dominates every operator shape (no 0-sized axes), so the theorem above applies
+   to the initial state StateMatrix(shape=getshape(seq)) of simulate, also with extra axes *)
+Lemma getshape_dom shapes G extra : allpos shapes -> getshape shapes = Some G ->
+  List.Forall (fun A => dom A (G ++ extra)) shapes.
+Proof.
+  intros P H. apply List.Forall_forall. intros A HA. apply dom_app_r.
+  destruct (broadcast_shapes_spec true shapes) as [Sp _]. destruct (Sp G H) as [LG Hn]. clear Sp.
+  assert (LA : length A <= length G) by (rewrite LG; now apply length_le_maxlen).
+  assert (PA : pos A) by (unfold allpos in P; rewrite List.Forall_forall in P; auto).
+  assert (Hi : forall i, i < length A -> nth i A 1 = 1 \/ nth i A 1 = nth i G 1).
+  { intros i Hi. destruct (Hn i ltac:(lia)) as [Q _].
+    specialize (Q (pad_app (maxlen shapes) A)). rewrite nth_pad_app in Q.
+    pose proof (pos_nth A i PA). destruct Q as [Q|Q]; [|lia|auto].
+    unfold expand_shapes. apply in_map_iff. eauto. }
+  clear -LA Hi. revert G LA Hi. induction A as [|a A IH]; intros [|g G] LA Hi; simpl in *; auto; try lia.
+  split; [apply (Hi 0); lia|]. apply IH; [lia|]. intros i Li. apply (Hi (S i)). lia.
+Qed.
+
+(* scalar_prod and the fall-back matmul pick the append-aligned elements, every rank combination
+   that prepare lets through; the product's batch shape is epgpy's broadcast of the two shapes *)
+Theorem prod_pointwise A B ns R : length A <= length B -> prod_shape A B ns = Some R ->
+  exists R', R = R' ++ [ns] /\ length R' = length B /\ dom A R' /\ dom B R' /\
+  forall bidx k, length bidx = length B ->
+    prod_op A B (bidx ++ [k]) = aproj A bidx /\
+    prod_st B ns (bidx ++ [k]) = aproj B bidx ++ [sel ns k].
+Proof.
+  intros L H. rewrite prod_shape_le in H by auto. destruct (ashape A B) as [R'|] eqn:E; [|discriminate].
+  inversion H; subst. destruct (ashape_dom _ _ _ L E) as (D1 & D2 & D3).
+  exists R'. repeat split; auto. - now apply prod_op_aligned. - now apply prod_st_aligned.
+Qed.
+
+(* without the in-place matmul branch (always the fall-back form): unconditional *)
+Theorem vectorised_is_stack_noinplace (S : ScalOps) ns (ops : list (vop S)) (s r : vsm S) :
+  vrun false ns ops s = Some r ->
+  forall idx, valid (bshape r) idx ->
+    sget r idx = run (scalar_ops ops idx) (sget s (aproj (bshape s) idx)).
+Proof.
+  intros H. apply (vectorised_is_stack S false ns ops s r); auto.
+  apply List.Forall_forall. intros o _. now left.
+Qed.
+
+(* the pinned tree (in-place branch present): a (1,2) MatrixOp on a (2,2) state *)
+Definition wit_c (idx : list nat) : QI := if nth 1 idx 0 =? 0 then qr 1 1 else qr 2 1.
+Definition wit_ops : list (vop QIops) :=
+  [@mkVop QIops [1; 2] (fun idx => @OMatrix QIops (@mdiag QIops (@mk3 QIops (wit_c idx) (wit_c idx) (wit_c idx))) None) true].
+Definition wit_s : vsm QIops := @mkVsm QIops [2; 2] (fun _ => @init QIops (qr 1 1)).
+
+Theorem vectorised_refuted :
+  exists (ops : list (vop QIops)) s r idx,
+    vrun true 1 ops s = Some r /\ valid (bshape r) idx /\
+    sm_eqb (sget r idx) (run (scalar_ops ops idx) (sget s (aproj (bshape s) idx))) = false /\
+    (* the same input without the in-place branch agrees with the scalar run *)
+    (exists r', vrun false 1 ops s = Some r' /\
+       sm_eqb (sget r' idx) (run (scalar_ops ops idx) (sget s (aproj (bshape s) idx))) = true).
+Proof.
+  exists wit_ops, wit_s. eexists. exists [1; 0]. split; [reflexivity|]. split.
+  - repeat constructor.
+  - split; [vm_compute; reflexivity|]. eexists. split; [reflexivity|]. vm_compute. reflexivity.
+Qed.
